@@ -328,6 +328,10 @@ def run_unit(scratch, prop, unit, exp, tier):
     open(src, "w").write(text)
     os.makedirs(os.path.join(VERIF, "logs"), exist_ok=True)
     open(os.path.join(VERIF, "logs", "verus-%s.rs" % unit), "w").write(text)
+    # every extracted function must carry a contract: a loop-free function without one would "verify" whatever it does
+    for name, inf in info.items():
+        if not inf["has_contract"] and "::const_" not in name:
+            problems.append("extracted function `%s` has no contract (it would verify trivially)" % name)
     if problems:
         for p in problems:
             res["undecided"].append("engine V [%s]: %s" % (unit, p))
